@@ -353,6 +353,7 @@ func checkC13(c *Ctx) Meta {
 	c.Rule("C13-BLOCK", "every blocking operation (send, receive, blocking select, WaitGroup.Wait, or a call that may block on one) executed while a keeper lock is held is unblocked only by goroutines that never acquire a conflicting lock", 8)
 	c.Rule("C13-CHAN", "every close of a channel held in a struct field is once-guarded (sync.Once, successful CAS, mutex + closed flag, or the service's CAS-serialised OnStop); every send on a closable field channel is under the closer's mutex behind the flag test", 6)
 	c.Rule("C13-LOCKORDER", "the acquired-while-holding relation over the keeper's lock classes is acyclic and no non-reentrant lock is re-acquired", 1)
+	c.Rule("C13-POP", "the plotter queue's heap is popped only under the queue mutex behind a non-emptiness test in the same lock hold, and items popped from the shared queue are nil-tested before use", 8)
 	c.Rule("C13-QUEUE", "the plotter queue's heap is accessed only under the queue mutex by code that can run concurrently with the keeper API", 2)
 
 	scopePkgs := map[string]bool{pkgCapacity: true, pkgSkchia: true, pkgMassDBV1: true, pkgEngine: true, pkgEngineV2: true,
@@ -517,6 +518,7 @@ func checkC13(c *Ctx) Meta {
 	// ---- QUEUE guard
 	for _, spec := range []struct{ pkg, label string }{{pkgCapacity, "capacity"}, {pkgSkchia, "skchia"}} {
 		checkQueueGuard(c, spec.pkg, spec.label, scope, li)
+		checkPopGuard(c, spec.pkg, spec.label, li)
 	}
 
 	return Meta{
@@ -916,6 +918,102 @@ func checkQueueGuard(c *Ctx, pkg, label string, scope map[*ssa.Function]bool, li
 			c.Bad(rule, key, "", fmt.Sprintf("the queue's %s is replaced under the queue mutex (Delete) but accessed without it by code that runs concurrently: %s — a data race on the heap that can corrupt it or lose a request", f, strings.Join(bad, "; ")))
 		} else {
 			c.OK(rule, key, "", fmt.Sprintf("%d concurrent accesses, all under the queue mutex", len(by[f])))
+		}
+	}
+}
+
+// checkPopGuard: (1) inside the queue type, every pop from the heap is, under the queue mutex,
+// dominated by a non-emptiness test of the same heap; (2) every pop from the keeper's shared queue
+// (sk.queue) has its result tested for nil before use — the test-then-pop of the plotter loop is not
+// atomic against the API's queue.Delete.
+func checkPopGuard(c *Ctx, pkg, label string, li *lockInfo) {
+	rule := "C13-POP"
+	qType := pkg + ".plotterQueue"
+	prque := "(*gopkg.in/karalabe/cookiejar.v2/collections/prque.Prque)."
+	for fn := range c.AllFuncs {
+		if pkgOf(fn) != pkg {
+			continue
+		}
+		for _, pop := range callsIn(fn, prque+"Pop", prque+"PopItem") {
+			// only pops on the heap of a plotterQueue (field Prque)
+			t, f, base, ok := fieldOfValue(callRecv(pop))
+			if !ok || t != qType || f != "Prque" {
+				continue
+			}
+			key := label + ":" + FuncName(fn) + ":heap-pop-guarded"
+			held := false
+			for k := range li.at[pop] {
+				if k.Class == qType+".Mutex" {
+					held = true
+				}
+			}
+			var tests []boolTest
+			for _, e := range callsIn(fn, prque+"Empty") {
+				if t2, f2, b2, ok := fieldOfValue(callRecv(e)); ok && t2 == qType && f2 == "Prque" && accessPath(b2) == accessPath(base) {
+					tests = append(tests, boolTestsOf(fn, e)...)
+				}
+			}
+			okDom, _ := unreachableWhenCut(fn, boolEdgeCut(tests, false), []ssa.Instruction{pop})
+			// and going round a loop must pass the test again
+			again := reach(fn, pop, boolEdgeCut(tests, false), nil)(pop)
+			switch {
+			case !held:
+				c.Bad(rule, key, c.Pos(pop.Pos()), "the heap is popped without the queue mutex")
+			case len(tests) == 0 || !okDom || again:
+				c.Bad(rule, key, c.Pos(pop.Pos()), "the heap is popped without a non-emptiness test under the same lock hold: a caller's earlier Empty() test can be invalidated by a concurrent Delete/Reset, and popping an empty heap panics (index out of range)")
+			default:
+				c.OK(rule, key, c.Pos(pop.Pos()), "pop under the queue mutex behind !Empty()")
+			}
+		}
+	}
+	// (2) results of PopItem/Pop on the shared queue are nil-tested before use
+	for fn := range c.AllFuncs {
+		if pkgOf(fn) != pkg {
+			continue
+		}
+		for _, cl := range callsIn(fn, "(*"+qType+").PopItem", "(*"+qType+").Pop") {
+			p := accessPath(callRecv(cl))
+			if !strings.HasSuffix(p, ".queue") {
+				continue // function-local queues are not shared
+			}
+			key := label + ":" + FuncName(fn) + ":shared-pop-result-nil-tested"
+			res := resultOf(cl, 0)
+			if res == nil {
+				c.OK(rule, key, c.Pos(cl.Pos()), "result unused")
+				continue
+			}
+			tests := nilTestsOf(fn, res)
+			cut := func(from, to *ssa.BasicBlock) bool {
+				for _, t := range tests {
+					if from == t.If.Block() && to == t.NonNil {
+						return true
+					}
+				}
+				return false
+			}
+			r := reach(fn, cl, cut, nil)
+			bad := false
+			for a := range aliasesForward(fn, res) {
+				if refs := a.Referrers(); refs != nil {
+					for _, u := range *refs {
+						switch u.(type) {
+						case *ssa.FieldAddr, *ssa.Field:
+							if r(u) {
+								bad = true
+							}
+						case ssa.CallInstruction:
+							if r(u) {
+								bad = true
+							}
+						}
+					}
+				}
+			}
+			if len(tests) == 0 || bad {
+				c.Bad(rule, key, c.Pos(cl.Pos()), "the item popped from the shared plotter queue is used without a nil test although the queue can be emptied between the caller's Empty() test and the pop")
+			} else {
+				c.OK(rule, key, c.Pos(cl.Pos()), "popped item is used only behind a nil test")
+			}
 		}
 	}
 }
